@@ -34,8 +34,9 @@ def norm(v):
     return ('arr', a.shape, np.ascontiguousarray(a, dtype=np.float64).tobytes())
 
 
-def run_op(obj, op):
-    """op = (method-or-path, args[, kwargs]).  Returns ('ok', norm) or ('exc', type name)."""
+def run_op(obj, op, keep=None):
+    """op = (method-or-path, args[, kwargs]).  Returns ('ok', norm) or ('exc', type name).
+    keep: list that receives (op, the returned object itself, its normal form) for array results (retention monitor)."""
     name, args = op[0], op[1]
     kw = op[2] if len(op) > 2 else {}
     try:
@@ -44,7 +45,11 @@ def run_op(obj, op):
             target = getattr(target, part)
         if name.endswith(']'):
             raise AttributeError(name)
-        return ('ok', norm(target(*args, **kw)))
+        res = target(*args, **kw)
+        n_ = norm(res)
+        if keep is not None and isinstance(res, np.ndarray) and res.size <= 2_000_000:
+            keep.append((op, res, n_))
+        return ('ok', n_)
     except Exception as e:  # noqa
         return ('exc', type(e).__name__)
 
@@ -185,6 +190,7 @@ def expected_2d(V, op):
 def check_ops(reader, ops, expect, tag=''):
     """Run ops on reader, compare with expect(op).  Returns (mismatches, n_compared)."""
     bad, n = [], 0
+    kept = []          # the last results themselves: they must still be right after the reads that follow (a caller keeps what it was given)
     for op in ops:
         exp = expect(op)
         try:
@@ -198,4 +204,13 @@ def check_ops(reader, ops, expect, tag=''):
         if d:
             kind = 'shape' if d.startswith('shape') else 'value'
             bad.append({'sig': '%s%s:%s-mismatch' % (tag, op[0], kind), 'detail': '%s%s: %s' % (op[0], op[1], d)})
+        else:
+            for op_k, got_k, exp_k in kept:
+                if same(got_k, exp_k):
+                    bad.append({'sig': '%s%s:result-changed-after-a-later-read' % (tag, op_k[0]),
+                                'detail': 'the array returned by %s%s was right when returned and differs after %s%s' % (op_k[0], op_k[1], op[0], op[1])})
+                    kept = []
+                    break
+            if isinstance(got, np.ndarray):
+                kept = (kept + [(op, got, exp)])[-3:]
     return bad, n
